@@ -13,6 +13,7 @@ NoGiven == <<>>
 DrainsBoth == {TRUE, FALSE}
 DrainsNo == {FALSE}
 KindsSA == {"s", "a"}
+KindsSlow == {"s", "at", "aw"}
 \* scenarios handed over by the driver (shrinking candidates, replay files): one JSON object per line
 GivenFromEnv == ndJsonDeserialize(IOEnv.C17_SCEN)
 ====
